@@ -154,6 +154,45 @@ func c13Split(cfg rag.SizeConfig, text string) (pieces []string, ok bool) {
 	}
 }
 
+// c13Oracle is the sentence-end oracle handed to the model: for the text and for every overlap the
+// implementation can take before truncation, one byte per rune (1 = splitIntoSentencesWithPositions ends a sentence there).
+func c13Oracle(cfg rag.OverlapConfig, texts ...string) VL {
+	seen := map[string]bool{}
+	tbl := VL{}
+	add := func(t string) {
+		if seen[t] {
+			return
+		}
+		seen[t] = true
+		ends := rag.VerifSentenceEnds(t)
+		bits := make([]byte, len(ends))
+		for i, e := range ends {
+			if e {
+				bits[i] = 1
+			}
+		}
+		tbl = append(tbl, L(Bs(t), VB(bits)))
+	}
+	for _, t := range texts {
+		add(t)
+		// the overlap before truncation and before the minimum is applied, by the strategy itself and by the character fallback
+		for _, st := range []rag.OverlapStrategy{cfg.Strategy, rag.OverlapCharacter} {
+			c := cfg
+			c.Strategy, c.MinOverlap, c.MaxOverlap = st, 0, 1<<40
+			add(rag.NewOverlapGeneratorWithConfig(c).GenerateOverlap(t).Text)
+		}
+	}
+	return tbl
+}
+
+func c13OverlapCase(cfg rag.OverlapConfig, text string) V {
+	pw := 0
+	if cfg.PreserveWords {
+		pw = 1
+	}
+	return L(I(2), I(int(cfg.Strategy)), I(cfg.Size), I(cfg.MinOverlap), I(cfg.MaxOverlap), I(pw), Bs(text), c13Oracle(cfg, text))
+}
+
 func init() {
 	props["C13"] = func(r *Run, rng *RNG) {
 		thorough := r.Tier == "thorough"
@@ -296,8 +335,9 @@ func init() {
 			cfg.MaxOverlap = []int{50, 200, 500, 100000}[rng.Intn(4)]
 			res := rag.NewOverlapGeneratorWithConfig(cfg).GenerateOverlap(text)
 			o := res.Text
-			cv := L(I(2), I(int(cfg.Strategy)), I(cfg.Size), I(cfg.MinOverlap), I(cfg.MaxOverlap), Bool(cfg.PreserveWords), Bs(text))
+			cv := c13OverlapCase(cfg, text)
 			sname := cfg.Strategy.String()
+			r.Case(cv, Bs(o), "overlap:"+sname, o != "" && o != text)
 			if o == "" {
 				continue
 			}
@@ -330,7 +370,8 @@ func init() {
 						continue
 					}
 					o := rag.NewOverlapGeneratorWithConfig(cfg).GenerateOverlap(text).Text
-					cv := L(I(2), I(int(st)), I(cfg.Size), I(0), I(cfg.MaxOverlap), Bool(true), Bs(text))
+					cv := c13OverlapCase(cfg, text)
+					r.Case(cv, Bs(o), "overlap-boundary:"+st.String(), o != "")
 					r.Check(len(o) <= cfg.MaxOverlap, "overlap-max:"+st.String(), fmt.Sprintf("overlap of %d bytes exceeds MaxOverlap %d", len(o), cfg.MaxOverlap), cv)
 					r.Check(strings.HasSuffix(nonWS(text), nonWS(o)), "overlap-suffix:"+st.String(), "overlap is not a suffix of the chunk's own content", cv)
 					r.Check(utf8.ValidString(o), "overlap-utf8:"+st.String(), "overlap is not valid UTF-8", cv)
@@ -354,7 +395,19 @@ func init() {
 			if cfg.Strategy == rag.OverlapCharacter {
 				cfg.Size = rng.Range(5, 200)
 			}
+			chainIn := L(I(3), I(int(cfg.Strategy)), I(cfg.Size), I(cfg.MinOverlap), I(cfg.MaxOverlap), I(1), func() VL {
+				v := VL{}
+				for _, t := range orig {
+					v = append(v, Bs(t))
+				}
+				return v
+			}(), c13Oracle(cfg, orig...))
 			out := rag.ApplyOverlapToChunks(chunks, cfg)
+			chainOut := VL{}
+			for _, c := range out {
+				chainOut = append(chainOut, L(Bs(c.OverlapPrefix), Bs(c.Chunk.Text)))
+			}
+			r.Case(chainIn, chainOut, "overlap-chain:"+cfg.Strategy.String(), true)
 			okS := true
 			for j := 1; j < len(out); j++ {
 				if out[j].HasOverlapPrefix && !strings.HasSuffix(nonWS(orig[j-1]), nonWS(out[j].OverlapPrefix)) {
